@@ -1,0 +1,27 @@
+package types
+
+import (
+	"bytes"
+	"sort"
+
+	"github.com/gogo/protobuf/proto"
+
+	sdk "github.com/cosmos/cosmos-sdk/types"
+)
+
+// EmitTypedEvent emits a typed event with its attributes sorted by key.
+//
+// EventManager.EmitTypedEvent of the cosmos-sdk version in use builds the attribute list by ranging
+// over a Go map, so the attribute order of the emitted event differs between nodes and between
+// replays of the same block. Sorting makes the emitted events deterministic.
+func EmitTypedEvent(ctx sdk.Context, tev proto.Message) error {
+	event, err := sdk.TypedEventToEvent(tev)
+	if err != nil {
+		return err
+	}
+	sort.SliceStable(event.Attributes, func(i, j int) bool {
+		return bytes.Compare(event.Attributes[i].Key, event.Attributes[j].Key) < 0
+	})
+	ctx.EventManager().EmitEvent(event)
+	return nil
+}
